@@ -545,9 +545,8 @@ def _type_check_passed_parameters(atomic_type, ir, source_file_name, errors):
             # definition site; no need for another, probably-confusing error at any
             # usage sites.
             continue
-        if (
-            atomic_type.runtime_parameter[i].type.which_type
-            != referenced_type.runtime_parameter[i].type.which_type
+        if not _types_are_compatible(
+            atomic_type.runtime_parameter[i], referenced_type.runtime_parameter[i]
         ):
             errors.append(
                 [
